@@ -40,6 +40,9 @@ def lookup(dpv, k):
     return hits[-1] if hits else ('__absent__',)
 
 
+BINARY_ENC = "binary mode doesn't take an encoding argument"
+
+
 def classify(fmt, v, default):
     """Fingerprint for a round-trip difference, given the value that was written."""
     if fmt == 'yaml':
@@ -118,7 +121,7 @@ class Prop(PropBase):
             return '2%nat'
         for k in ('write', 'fetch', 'res', 'parser'):
             r = obs.get(k)
-            if r and r[0] == 'err' and r[1].startswith('Unicode'):
+            if r and r[0] == 'err' and (r[1].startswith('Unicode') or BINARY_ENC in str(r[2:])):
                 return '2%nat'     # the on-disk encoding is outside the model
         F = R.FMT[case['fmt']]['coq']
         ctx = coq_ctx(case)
@@ -310,6 +313,11 @@ class Prop(PropBase):
             return out
         if obs['res'][0] != 'ok' and obs['res'][1].startswith('Unicode') and obs.get('out_encodable') is False:
             return out          # the formatted document cannot be written in the requested encodingOut
+        if obs['res'][0] != 'ok' and fmt == 'toml' and BINARY_ENC in str(obs['res'][2:]) and case.get('default_enc'):
+            out.append(fail('fileformat-raises',
+                            f'toml: with config.default_encoding={case["default_enc"]!r} fileFormatToml raised '
+                            f'{obs["res"][1]}: {obs["res"][2]}', 'toml-fileformat-default-encoding'))
+            return out
         if obs['res'][0] != 'ok':
             out.append(fail('fileformat-raises', f'{fmt}: fileformat raised {obs["res"][1:]}; the formatted '
                                                  f'document {exp!r} is representable', f'{fmt}-fileformat-raises'))
@@ -382,6 +390,8 @@ class Prop(PropBase):
                 tags.append('hand-text')
         if case.get('enc'):
             tags.append('enc:' + case['enc'])
+        if case.get('default_enc'):
+            tags.append('default-enc:' + case['default_enc'])
         s = repr(case.get('payload', case.get('doc', '')))
         for name, needle in (('nel', '\\x85'), ('braces', '{{'), ('fmt-expr', '{n}'), ('astral', '\\U0001f600'),
                              ('multiline', '\\n'), ('float', "'f'"), ('nonfinite', "'fx'"), ('bigint', '9223372036854775808')):
